@@ -110,9 +110,8 @@ Definition usable_nameb (r : str) : bool :=
 (* the defect classes the models know about *)
 Definition keyword_not_reserved (r : str) : bool := is_keyword r && negb (is_reserved r).
 
-(* verdict on one generated name: 0 usable, 1 = the keyword known to be missing from stop_words
-   ("await", theorem C07_safe_name_is_identifier), 3 = any OTHER keyword that is not reserved,
-   2 = not an identifier *)
+(* verdict on one generated name: 0 usable, 1 = `await` not reserved (finding C07-F1, fixed: a
+   regression), 3 = any other keyword that is not reserved, 2 = not an identifier *)
 Definition name_verdict (r : str) : N :=
   if usable_nameb r then 0
   else if keyword_not_reserved r then (if str_eqb r (PyIdent.lit "await") then 1 else 3)
@@ -169,6 +168,9 @@ Definition classify_dup_classes (c : list (str * str) * list str * list str) : N
       else 0
   end.
 
-(* did the attr-level rename model predict a by-preference collision for this input? *)
-Definition model_preference_collision (l : list (str * str * option str)) : bool :=
-  negb (snd (rename_checked (map attr_of l))).
+(* Filters.__init__: does the configuration pass the safe-prefix validation? *)
+Definition agree_filters_init (c : list (str * str) * bool) : bool :=
+  match conv_of (fst c) with
+  | Some cv => Bool.eqb (filters_init cv) (snd c)
+  | None => false
+  end.
